@@ -61,6 +61,9 @@ Fixpoint skip_blanks (s : string) : string :=
   | EmptyString => s
   end.
 
+Definition tail_str (s : string) : string :=
+  match s with String _ r => r | EmptyString => EmptyString end.
+
 (* longest prefix of digits: (value, number of digits, rest) *)
 Fixpoint span_digits (s : string) (acc : N) (cnt : nat) : N * nat * string :=
   match s with
@@ -80,7 +83,8 @@ Definition lex_literal (neg : bool) (s : string) : option (token * string) :=
       let z := if neg then (- Z.of_N v)%Z else Z.of_N v in
       let '(sub, rest') :=
         match rest with
-        | String "." (String d r2) => if is_digit d then (Some (digit_val d), r2) else (None, rest)
+        | String c1 (String d r2) =>
+            if Ascii.eqb c1 "." && is_digit d then (Some (digit_val d), r2) else (None, rest)
         | _ => (None, rest)
         end in
       match rest' with
@@ -100,13 +104,11 @@ Fixpoint lex (fuel : nat) (s : string) : list token :=
           else if Ascii.eqb c ")" then TRP :: lex f r
           else if Ascii.eqb c ":" then TColon :: lex f r
           else if Ascii.eqb c "#" then
-            match skip_blanks r with
-            | String "(" r2 => THashP :: lex f r2
-            | r1 => match span_digits r1 0%N 0 with
-                    | (_, O, _) => [TBad]
-                    | (n, _, r2) => THashN n :: lex f r2
-                    end
-            end
+            if starts_with_char "(" (skip_blanks r) then THashP :: lex f (tail_str (skip_blanks r))
+            else match span_digits (skip_blanks r) 0%N 0 with
+                 | (_, O, _) => [TBad]
+                 | (n, _, r2) => THashN n :: lex f r2
+                 end
           else if Ascii.eqb c "-" then
             match lex_literal true r with Some (t, r2) => t :: lex f r2 | None => [TBad] end
           else if Ascii.eqb c "+" then
